@@ -585,8 +585,11 @@ def step (P : Prog) (c0 : Cfg) : Except (Outcome × Cfg) Cfg :=
       match c.A.stack.getLast? with
       | none => c.raise .err                                   -- ScreenStackEmptyException
       | some e =>
-        let c := { c with A := { c.A with stack := c.A.stack.dropLast } }
-        .ok (push (c.trace (.stackOp "close" c.A.stack)) [.callScr e.screen .closed none none, .closeScreen2 e frm])
+        -- the request is checked against the top screen before anything is popped (RenderUnexpectedError leaves the stack as it is)
+        if frm ≠ none ∧ frm ≠ some (.scr e.screen) then c.raise .err
+        else
+          let c := { c with A := { c.A with stack := c.A.stack.dropLast } }
+          .ok (push (c.trace (.stackOp "close" c.A.stack)) [.callScr e.screen .closed none none, .closeScreen2 e frm])
     | .closeScreen2 e frm =>
       if frm ≠ none ∧ frm ≠ some (.scr e.screen) then c.raise .err   -- RenderUnexpectedError
       else if e.modal then .ok (push c [.closeLoop, .closeScreen3 e])
